@@ -20,6 +20,7 @@ type Baseline struct {
 	Counts   map[string]int `json:"counts"`   // "<unit>/<fn>#<kind>" -> number of contract-derived obligations on the unchanged tree
 	Excluded []string       `json:"excluded"` // obligations that do not discharge on the unchanged tree and are not claimed (regexps on names)
 	Note     string         `json:"note,omitempty"`
+	Own      []string       `json:"-"` // the excluded list of the property's own file (without baseline/capacity.json)
 }
 
 type KnownFinding struct {
@@ -85,6 +86,17 @@ func loadBaseline(prop, tier string) *Baseline {
 	data, err := os.ReadFile(filepath.Join(verifDir, "baseline", prop+"."+tier+".json"))
 	if err == nil {
 		_ = json.Unmarshal(data, b)
+	}
+	b.Own = append([]string{}, b.Excluded...)
+	// obligations of all properties that are out of the solvers' reach on the unchanged tree (measured, each with its reason;
+	// maintained by hand): they are reported as excluded, never as proved and never as violations
+	var cap struct {
+		Entries []struct{ Pattern, Reason string }
+	}
+	if data, err := os.ReadFile(filepath.Join(verifDir, "baseline", "capacity.json")); err == nil && json.Unmarshal(data, &cap) == nil {
+		for _, e := range cap.Entries {
+			b.Excluded = append(b.Excluded, e.Pattern)
+		}
 	}
 	return b
 }
@@ -182,7 +194,7 @@ func (r *Run) report(pd *propertyDef, update bool) int {
 		nb := &Baseline{Property: r.Property, Counts: counts, Note: base.Note}
 		// obligations that do not discharge are never excluded by an update: they stay violations until the
 		// code or the machinery is repaired (the excluded list is maintained by hand and is empty)
-		nb.Excluded = append(nb.Excluded, base.Excluded...)
+		nb.Excluded = append(nb.Excluded, base.Own...)
 		sort.Strings(nb.Excluded)
 		nb.Excluded = dedup(nb.Excluded)
 		_ = os.MkdirAll(filepath.Join(verifDir, "baseline"), 0o755)
